@@ -1,14 +1,18 @@
 #!/bin/bash
 # tools/run_seeds.sh [seed dir ...]: for every seeded defect run the checks named in its meta.json (detected_by_quick)
 # against a scratch worktree with the patch applied; prints one line per seed: DETECTED / MISSED / DOES-NOT-APPLY.
+# SEED_JOBS (default 4) seeds run at the same time, each check with VERIF_WORKERS (default 4) worker processes.
 cd /verif
-dirs=("$@"); [ ${#dirs[@]} -eq 0 ] && dirs=(seeded/*/)
-for d in "${dirs[@]}"; do
-  d=${d%/}; name=$(basename "$d")
+one() {
+  d=${1%/}; name=$(basename "$d")
   checks=$(python3 -c "import json,sys; print(' '.join(json.load(open('$d/meta.json'))['detected_by_quick']))" 2>/dev/null)
-  [ -z "$checks" ] && { echo "$name: no meta"; continue; }
+  [ -z "$checks" ] && { echo "$name: no meta"; return; }
   out=$(timeout 1800 tools/try_patch.sh "$d/patch.diff" $checks 2>&1)
-  if echo "$out" | grep -q "does not apply"; then echo "$name: DOES-NOT-APPLY"; continue; fi
+  if echo "$out" | grep -q "does not apply"; then echo "$name: DOES-NOT-APPLY"; return; fi
   hit=$(echo "$out" | grep -E "^== " | awk '$3!="rc=0"{print $2}' | tr '\n' ' ')
   if [ -n "$hit" ]; then echo "$name: DETECTED by $hit"; else echo "$name: MISSED (ran $checks)"; fi
-done
+}
+export -f one
+export VERIF_WORKERS=${VERIF_WORKERS:-4}
+dirs=("$@"); [ ${#dirs[@]} -eq 0 ] && dirs=(seeded/*/)
+printf '%s\n' "${dirs[@]}" | xargs -P "${SEED_JOBS:-4}" -I{} bash -c 'one {}'
